@@ -734,7 +734,7 @@ func (e *Exec) loopFrame(head, end *State, ord int, given map[string][]designato
 				whole = true
 			}
 		}
-		if whole || e.P.Memo[k] != nil {
+		if whole || e.P.Memo[k] != nil || e.privateElsewhere(k) {
 			continue
 		}
 		if end.HavocAll && !head.HavocAll {
